@@ -367,7 +367,34 @@ pub fn run_and_record(h: &History, want: &str, rep: &mut Report, sample: bool) {
         rep.sample(h.brief());
     }
     if let Some(v) = execute(h, want, rep) {
-        rep.violate(v);
+        rep.violate(shrink(h, want, v));
+    }
+}
+
+pub fn shrink(h: &History, want: &str, v: Violation) -> Violation {
+    let base = match Text::parse(&v.replay).ok().and_then(|t| History::parse(&t).ok()) {
+        Some(c) => c,
+        None => return v,
+    };
+    let total: u64 = base.ops.iter().map(|o| match o {
+        Op::Poll(_, n) | Op::Rand(_, n, _, _) => *n,
+        _ => 1,
+    }).sum();
+    if base.ops.len() > 2000 || total * (h.cfg.capacity() as u64).max(50) > 30_000_000 {
+        return v;
+    }
+    let sig = v.signature.clone();
+    let fails = |ops: &[Op]| {
+        let hh = History { cfg: h.cfg, strict: h.strict, ops: ops.to_vec() };
+        let mut scratch = Report::new();
+        matches!(execute(&hh, want, &mut scratch), Some(x) if x.signature == sig)
+    };
+    let ops = crate::report::shrink_ops(&base.ops, 300, fails);
+    let hh = History { cfg: h.cfg, strict: h.strict, ops };
+    let mut scratch = Report::new();
+    match execute(&hh, want, &mut scratch) {
+        Some(x) if x.signature == sig => x,
+        _ => v,
     }
 }
 
@@ -396,8 +423,25 @@ fn in_level(r: &mut Rng, cfg: &Cfg) -> f32 {
         _ => (r.unit() * (b - 2e-5)) as f32,
     }
 }
+/// the boundary as an f32, when a sample exactly equal to it is out of range under both readings (the f32
+/// comparison the API works in, and the real-number formula of the property): i.e. when it is not below the exact value
+fn exact_boundary(cfg: &Cfg) -> Option<f32> {
+    let b32 = 1.0f32 - (cfg.dropper / (cfg.dropper + cfg.softpot));
+    if (b32 as f64) >= cfg.boundary() && ((b32 as f64) - cfg.boundary()).abs() < 1e-6 {
+        Some(b32)
+    } else {
+        None
+    }
+}
+
 fn out_level(r: &mut Rng, cfg: &Cfg) -> f32 {
     let b = cfg.boundary();
+    if r.chance(0.15) {
+        if let Some(x) = exact_boundary(cfg) {
+            // a sample sitting exactly on the boundary is not below it: out of range
+            return x;
+        }
+    }
     match r.below(4) {
         0 => 1.0,
         1 => (b + 2e-5) as f32,
@@ -697,6 +741,31 @@ pub fn run(ctx: &Ctx, prop: &str) -> Report {
         rep
     });
     stage("ribbon.histories_per_rate", r, &mut rep, t0);
+    // (a2) one very long press whose position creeps along the ribbon (many buffer turnovers without a release)
+    let t0 = std::time::Instant::now();
+    let long_rates: Vec<u32> = if small { vec![100] } else { vec![100, 1000, 3000, 10_000, 800] };
+    let r = par_shards(ctx, long_rates.len(), |j| {
+        let mut rep = Report::new();
+        let rate = long_rates[j];
+        let mut r = Rng::derive(ctx.seed, "ribbon.long_press", rate as u64);
+        let cfg = if j % 2 == 0 { Cfg { rate, softpot: 20e3, dropper: 820.0, pullup: 1e6 } } else { pick_cfg(&mut r, &[rate]) };
+        let b = (cfg.boundary() - 2e-5) as f32;
+        let total = ctx.budget(400, 400_000, 4_000_000);
+        let segs = ctx.budget(20, 2_000, 20_000);
+        let mut ops = Vec::new();
+        let start = 0.05 * b + 0.1 * b * r.unit() as f32;
+        for k in 0..segs {
+            // creep upward by a few ulps per segment, with a slow wobble
+            let x = start + (0.8 * b - start) * (k as f32 / segs as f32) + 1e-4 * ((k % 17) as f32 - 8.0) * b;
+            ops.push(Op::Poll(x.max(0.0).min(b), (total / segs).max(1)));
+        }
+        ops.push(Op::Poll(1.0, 3));
+        let h = History { cfg, strict: j % 2 == 1, ops };
+        run_and_record(&h, prop, &mut rep, false);
+        rep.count("ribbon.very_long_presses", 1);
+        rep
+    });
+    stage("ribbon.very_long_creeping_press", r, &mut rep, t0);
     // (b) many more histories on the cheap (small-buffer) rates
     let t0 = std::time::Instant::now();
     let n_hist = ctx.budget(4, 4_000, 300_000) as usize;
